@@ -483,7 +483,7 @@ PROPS = {
                  "cloner's pools will; 4-24 queries sent concurrently over every transport with a handler that takes 0-900 ms; every "
                  "response must be the pipeline function's answer to its own query; every run non-trivial; distinct = distinct decision hash"),
         "assumptions": [
-            "in the sysim part the interleaving of the streams is produced by simulated upstream delays and the Go scheduler; every random choice is private to a stream, so decisions replay while goroutine order may differ",
+            "in the sysim part the interleaving of the streams is produced by simulated upstream delays, by yields inserted into the ECS cache (after an item is taken from the cache, before it is cloned, before an item is stored; a stream that yields sleeps one simulated nanosecond, so that every other stream that can run does so first) and by the Go scheduler; every random choice is private to a stream, so decisions replay while goroutine order may differ; sync.Pool is emptied before each run and the collector is off during it, so that what the pools hand out is a function of the run; a failure that still does not replay alone is replayed together with the runs its worker process had made before it",
             "TTLs of resolved answers may be smaller than in the reference (aged in the cache), never larger; filtered answers must carry the requester's own TTL",
             "request IDs and elapsed times inside CHAOS debug records are not compared",
         ],
